@@ -21,6 +21,7 @@ import (
 const W = 15 * time.Second
 
 type env struct {
+	nclients int
 	root string
 	dotu bool // server side
 	s    *srvlab.Sess
@@ -144,6 +145,18 @@ func guarded(prop string, run func(ctx *core.Ctx) core.Result) func(ctx *core.Ct
 func (e *env) client(msize uint32, dotu bool) (*go9p.Clnt, error) {
 	cli, srv := memconn.Pipe("client", "ufs")
 	e.s.Srv.NewConn(srv)
+	e.nclients++
+	if dotu && msize > go9p.IOHDRSZ && e.nclients%3 == 0 {
+		// every third .u client comes in through the library's one-call helper (negotiate + attach)
+		c, err := go9p.MountConn(cli, "", msize-go9p.IOHDRSZ, go9p.OsUsers.Uid2User(0))
+		if err != nil {
+			return nil, err
+		}
+		liveMu.Lock()
+		livePipes = append(livePipes, &livePipe{cli: cli, srv: srv, clnt: c})
+		liveMu.Unlock()
+		return c, nil
+	}
 	c, err := go9p.Connect(cli, msize, dotu)
 	if err != nil {
 		return nil, err
